@@ -212,6 +212,33 @@ def check(col: Collector, tier: str):
     col.add("C10.R5", de.short, "enum-registered-with-its-values-and-namespace", "ENumInfo(enum_name, enum_values, ns)" in s and "ns.enums[enum_name] = e" in s
             and "define_ns(ns_name)" in s, "", de.loc)
 
+    dn = repo.function("define_ns")
+    rets = [r for r in walk_no_nested(dn.node) if isinstance(r, ast.Return)]
+    cur = rets[0].value.id if len(rets) == 1 and isinstance(rets[0].value, ast.Name) else None
+    lps = [n for n in dn.node.body if isinstance(n, ast.For)]
+
+    def must_assign(stmts, name):
+        for st in stmts:
+            if isinstance(st, ast.Assign) and any(isinstance(t, ast.Name) and t.id == name for t in st.targets):
+                return True
+            if isinstance(st, ast.If) and must_assign(st.body, name) and must_assign(st.orelse, name):
+                return True
+        return False
+    if cur is None or len(lps) != 1:
+        col.defer("define_ns is not `look up the first component, loop over the rest, return the cursor`: C10.R5 walks-every-component cannot be decided on this shape")
+    else:
+        lp = lps[0]
+        comps = _single(dn.node, src(lp.iter.value)) if isinstance(lp.iter, ast.Subscript) else None
+        all_rest = isinstance(lp.iter, ast.Subscript) and src(lp.iter.slice) == "1:" and comps is not None and "split('.')" in src(comps).replace('"', "'")
+        descends = must_assign(lp.body, cur)
+        created = [c for c in ast.walk(lp) if isinstance(c, ast.Call) and call_name(c) == "NameSpaceInfo"]
+        linked = len(created) == 1 and [src(a) for a in created[0].args] == [src(lp.target), cur] and \
+            any(isinstance(n, ast.Assign) and isinstance(n.targets[0], ast.Subscript) and src(n.targets[0].value).startswith(f"{cur}.") and src(n.targets[0].slice) == src(lp.target)
+                for n in ast.walk(lp))
+        col.add("C10.R5", dn.short, "walks-every-component", all_rest and descends and linked,
+                f"a.b.c must be resolved one component at a time: loop over every remaining component ({all_rest}), move the cursor into the child on EVERY "
+                f"iteration - found or created ({descends}), create a missing child under the cursor and register it there ({linked}); a cursor that only "
+                "moves when it creates puts the second enum of an existing nested namespace into the outer one", dn.loc)
     # ------------------------------------------------------------ R6 indirection synthesis
     col.floor("C10.R6", 6)
     ba = repo.function("base_type_member_access")
@@ -234,12 +261,7 @@ def check(col: Collector, tier: str):
     ok = len(arrow) == 1 and len(dot) == 1 and any(tr_ and src(t) == "depth > 0" for t, tr_ in guards(ba.node, arrow[0], pmb)) and \
         shape(parts(ba.node, dot[0].value))[-1] == "."
     col.add("C10.R6", ba.short, "arrow-iff-any-indirection", ok, "`->` when depth > 0, `.` otherwise", ba.loc)
-    pt = repo.function("parse_type")
-    lp = [n for n in walk_no_nested(pt.node) if isinstance(n, ast.While)]
-    ok = len(lp) == 1 and "endswith('*')" in src(lp[0]).replace('"', "'") and "ptr_depth += 1" in src(lp[0]) and any(isinstance(x, ast.Break) for x in ast.walk(lp[0]))
-    rets = [r for r in walk_no_nested(pt.node) if isinstance(r, ast.Return)]
-    ok = ok and len(rets) == 1 and src(rets[0].value) == "CPPParsedTypeInfo(t_name, ptr_depth, is_const)"
-    col.add("C10.R6", pt.short, "every-trailing-star-counted", ok, "pointer depth must be counted in a loop stripping one '*' per iteration", pt.loc)
+    check_parse_type(col, "C10.R6", repo)
     dv = repo.function("dereference_var")
     s = src(dv.node)
     ok = "'*' + new_v._expression" in s.replace('"', "'") and "get_dereferenced_type()" in s and "if not v.cpp_type().is_a_pointer" in s
@@ -275,3 +297,103 @@ def check_default_vector_type(col: Collector, rule: str, repo: Repo):
         sh = shape(parts(ts.node, rets[0].value))
         ok = len(sh) == 3 and sh[1] == "{self.type}" and "'*' * self._p_depth" in sh[2].replace('"', "'") and "const " in src(ts.node)
     col.add(rule, "terminal.__str__", "type-text-carries-const-and-pointer-depth", ok, "str(terminal) must render [const ]<type><one * per pointer level>", ts.loc)
+
+
+def check_parse_type(col: Collector, rule: str, repo: Repo):
+    """parse_type(text) -> (name, pointer depth, const): one '*' per loop iteration taken from the END of the text only, the
+    `const ` prefix removed as a prefix (exactly its length), the three facts returned in the record's field order."""
+    pt = repo.function("parse_type")
+    fn = pt.node
+    pm = parent_map(fn)
+    prm = fn.args.args[0].arg
+    q = lambda n: src(n).replace('"', "'").replace(" ", "")
+    # ---- pointer depth
+    loops = [n for n in walk_no_nested(fn) if isinstance(n, (ast.While, ast.For))]
+    incs, cuts = [], []
+    for lp in loops:
+        for n in ast.walk(lp):
+            if isinstance(n, ast.AugAssign) and isinstance(n.op, ast.Add) and q(n.value) == "1" and isinstance(n.target, ast.Name):
+                g = [q(t) for t, tr_ in guards(fn, n, pm) if tr_] + ([q(lp.test)] if isinstance(lp, ast.While) else [])
+                if any(x.endswith(".endswith('*')") for x in g):
+                    incs.append(n)
+            if isinstance(n, ast.Assign) and isinstance(n.value, ast.Subscript) and q(n.value.slice) in (":-1", ":-len('*')") \
+                    and src(n.targets[0]) == src(n.value.value):
+                cuts.append(n)
+            if isinstance(n, ast.Assign) and isinstance(n.value, ast.Call) and call_name(n.value) == "removesuffix" and q(n.value.args[0]) == "'*'":
+                cuts.append(n)
+    counts = [c for c in ast.walk(fn) if isinstance(c, ast.Call) and call_name(c) in ("count", "find", "index", "rfind", "split", "rsplit", "partition", "rpartition")
+              and c.args and "*" in (const_str(c.args[0]) or "")]
+    ok = len(loops) == 1 and len(incs) == 1 and len(cuts) == 1 and not counts
+    whole = [c for c in counts if isinstance(c.func.value, ast.Name) or (isinstance(c.func.value, ast.Call) and call_name(c.func.value) in ("strip", "rstrip", "lstrip"))]
+    if not ok and not whole:
+        col.defer("parse_type: the pointer-depth computation is neither the strip-one-trailing-star loop nor a search for '*' in the whole text "
+                  "(unrecognised refactoring): C10.R6 every-trailing-star-counted cannot be decided on this shape")
+        ok = True
+    col.add(rule, pt.short, "every-trailing-star-counted", ok,
+            "pointer depth must be counted in one loop that, while the text ends with '*', adds one and cuts exactly that last character: only TRAILING "
+            f"stars are indirections of the declared type (a '*' inside template arguments is not); loops={len(loops)}, +1 under endswith('*')={len(incs)}, "
+            f"cuts={len(cuts)}, searches for '*' anywhere={[src(c) for c in counts]}", pt.loc)
+    # ---- const prefix
+    starts = [c for c in ast.walk(fn) if isinstance(c, ast.Call) and call_name(c) == "startswith" and c.args and const_str(c.args[0]) is not None]
+    pre = const_str(starts[0].args[0]) if len(starts) == 1 else None
+    removed, flag_true = [], []
+    if pre is not None:
+        def is_guard(t):
+            if t is starts[0]:
+                return True
+            if isinstance(t, ast.Name):
+                d = defs_of(fn, t.id)
+                return len(d) == 1 and d[0] is starts[0]
+            return False
+        for n in walk_no_nested(fn):
+            if not isinstance(n, ast.Assign):
+                continue
+            under = any(tr_ and is_guard(t) for t, tr_ in guards(fn, n, pm))
+            v = n.value
+            if under and isinstance(v, ast.Subscript) and isinstance(v.slice, ast.Slice) and v.slice.upper is None and v.slice.step is None \
+                    and src(n.targets[0]) == src(v.value) and q(v.slice.lower) in (str(len(pre)), f"len('{pre}')".replace(" ", "")):
+                removed.append(n)
+            if under and isinstance(v, ast.Call) and call_name(v) == "removeprefix" and const_str(v.args[0]) == pre and src(v.func.value) == src(n.targets[0]):
+                removed.append(n)
+    col.add(rule, pt.short, "const-prefix-removed-as-a-prefix", pre == "const " and len(removed) == 1,
+            f"under startswith({pre!r}) the text must lose exactly that prefix ([{len(pre) if pre else '?'}:] or removeprefix): a character-set strip or a replace "
+            f"also eats the first letters of the type name (`const char*` -> `har*`) or later occurrences (found {[src(n) for n in removed]})", pt.loc)
+    strips = [c for c in ast.walk(fn) if isinstance(c, ast.Call) and call_name(c) in ("strip", "lstrip", "rstrip") and c.args]
+    bad = [src(c) for c in strips if const_str(c.args[0]) is not None and len({ch for ch in const_str(c.args[0]) if ch.isalnum()}) >= 2]
+    col.add(rule, pt.short, "no-word-given-to-a-character-set-strip", not bad,
+            f"str.strip/lstrip/rstrip take a SET of characters, not a prefix or suffix: {bad}", pt.loc)
+    # ---- the record
+    rets = [r for r in walk_no_nested(fn) if isinstance(r, ast.Return)]
+    ok = len(rets) == 1 and isinstance(rets[0].value, ast.Call) and call_name(rets[0].value) == "CPPParsedTypeInfo"
+    if ok:
+        c = rets[0].value
+        rec = repo.find_class("CPPParsedTypeInfo")
+        fields = [st.target.id for st in rec.node.body if isinstance(st, ast.AnnAssign) and isinstance(st.target, ast.Name)]
+        got = {}
+        for i, a in enumerate(c.args):
+            if i < len(fields):
+                got[fields[i]] = a
+        for k in c.keywords:
+            got[k.arg] = k.value
+        name_ok = isinstance(got.get("name"), ast.Name) and got["name"].id == prm
+        depth_ok = isinstance(got.get("pointer_depth"), ast.Name) and incs and got["pointer_depth"].id == incs[0].target.id
+        cv = got.get("is_const")
+        const_ok = cv is not None and (isinstance(cv, ast.Name) and (any(d is starts[0] for d in defs_of(fn, cv.id)) if starts else False)
+                                       or isinstance(cv, ast.Name) and {q(d) for d in defs_of(fn, cv.id)} == {"True", "False"}
+                                       or (starts and cv is starts[0]))
+        if isinstance(cv, ast.Name) and {q(d) for d in defs_of(fn, cv.id)} == {"True", "False"}:
+            # True exactly under the prefix guard
+            for n in walk_no_nested(fn):
+                if isinstance(n, ast.Assign) and src(n.targets[0]) == cv.id:
+                    g = [(t, tr_) for t, tr_ in guards(fn, n, pm) if starts and (t is starts[0])]
+                    if not g or g[0][1] != (q(n.value) == "True"):
+                        const_ok = False
+        ok = name_ok and bool(depth_ok) and bool(const_ok)
+    col.add(rule, pt.short, "record=(name-left-over, stars-counted, had-const-prefix)", ok,
+            f"parse_type must return CPPParsedTypeInfo(name=<the text left>, pointer_depth=<the counter>, is_const=<the prefix test>) "
+            f"(found {src(rets[0].value) if rets else None})", pt.loc)
+
+
+def _single(fn, name):
+    d = defs_of(fn, name)
+    return d[0] if len(d) == 1 else None
